@@ -153,7 +153,9 @@ class C10:
         n = 1200 if tier == "quick" else 15000
         k = 0
         # streams longer than any plausible write buffer (1024 / 4096 rows): a ring of pairs, each with a closed run
-        long_cases = [hist_case(d, True, [["add", i, i + 1, 1 + (i % 7), 3 + (i % 7) + (i % 3)] for i in range(1, m)], src="corpus-long")
+        # (few nodes, many runs per pair: the presence dump is quadratic in the number of nodes)
+        prs = [(1, 2), (2, 3), (3, 1)]
+        long_cases = [hist_case(d, True, [["add", prs[k % 3][0], prs[k % 3][1], 4 * (k // 3), 4 * (k // 3) + 2 + (k % 2)] for k in range(m)], src="corpus-long")
                       for d, m in ((0, 620), (1, 2200))]
         import itertools as _it
         for c in _it.chain(long_cases, io_histories(tier, rng, n)):
